@@ -184,6 +184,15 @@ Section Run.
     | _ => Err EType
     end.
 
+  (* functionNumber(context, opPos, ..): executeMore(double&) on the argument.  For a number literal
+     that is numberlit(opPos) = the token's number; being a leaf it is answered without fuel (as
+     XpDefs.ev_num does), everything else recurses through the double entry point *)
+  Definition number_arg (c : ctx) (a : expr) : res dbl :=
+    match a with
+    | ENumLit t => Ok (tk_num (num_token t))
+    | _ => ev_n E c a
+    end.
+
   Definition arith (c : ctx) (op : dbl -> dbl -> dbl) (a b : expr) : res dbl :=
     do x <- numeric_operand c a; do y <- numeric_operand c b; Ok (op x y).
 
@@ -202,11 +211,11 @@ Section Run.
     | HFnPosition => arg0 e (Ok (d_of_nat (position_of c)))
     | HFnLast => arg0 e (Ok (d_of_nat (length (cx_list c))))
     | HFnCount => arg1 e (fun a => do r <- ev_l E c a; Ok (d_of_nat (length (nl_nodes r))))
-    | HFnFloor => arg1 e (fun a => do x <- ev_n E c a; Ok (d_floor x))
-    | HFnCeiling => arg1 e (fun a => do x <- ev_n E c a; Ok (d_ceiling x))
-    | HFnRound => arg1 e (fun a => do x <- ev_n E c a; Ok (d_round x))
+    | HFnFloor => arg1 e (fun a => do x <- number_arg c a; Ok (d_floor x))
+    | HFnCeiling => arg1 e (fun a => do x <- number_arg c a; Ok (d_ceiling x))
+    | HFnRound => arg1 e (fun a => do x <- number_arg c a; Ok (d_round x))
     | HFnNumber0 => arg0 e (Ok (xo_number_str (node_string c (cx_node c))))
-    | HFnNumber1 => arg1 e (fun a => ev_n E c a)
+    | HFnNumber1 => arg1 e (fun a => number_arg c a)
     | HFnStringLength0 => arg0 e (Ok (d_of_nat (length (node_string c (cx_node c)))))
     | HFnStringLength1 => arg1 e (fun a => do s <- ev_f E c a []; Ok (d_of_nat (length s)))
     | HFnSum => arg1 e (fun a => do r <- ev_l E c a; Ok (sum_nodes c (nl_nodes r)))
@@ -296,12 +305,15 @@ Section Run.
     | _ => Err EType
     end.
 
-  (** ** one arm of each switch.  Combinations that do not occur in a well-typed program (no such
+  (** ** one arm of each switch.  (A bool literal in the place of the helper call is true() /
+      false(): XPathProcessorImpl::FunctionTrue / FunctionFalse reject a call with arguments at compile
+      time, so such an expression has no op map; the model answers EArgs for it, like
+      XpDefs.call_function.)  Combinations that do not occur in a well-typed program (no such
       overload, conversion applied to the wrong type) are errors of the model: a table that
       contains one makes the theorems of ExecModel.v fail. *)
   Definition run_g (a : arm) (c : ctx) (e : expr) : res value :=
     match a with
-    | AConst b CvCreateBoolean => Ok (VBool b)
+    | AConst b CvCreateBoolean => arg0 e (Ok (VBool b))
     | ACall h SgBool CvCreateBoolean => do x <- h_bool h c e; Ok (VBool x)
     | ACall h SgNum CvCreateNumber => do x <- h_num h c e; Ok (VNum x)
     | ACall h SgStrRef CvCreateStringReference => do x <- h_strref h c e; Ok (VStr x)
@@ -311,7 +323,7 @@ Section Run.
 
   Definition run_b (a : arm) (c : ctx) (e : expr) : res bool :=
     match a with
-    | AConst b CvDirect => Ok b
+    | AConst b CvDirect => arg0 e (Ok b)
     | ACall h SgBool CvDirect => h_bool h c e
     | ACall h SgNum CvBoolean => do x <- h_num h c e; Ok (xo_boolean_num x)
     | ACall h SgNum CvDirect => do x <- h_num h c e; Ok (implicit_bool_of_double x)
@@ -323,7 +335,7 @@ Section Run.
 
   Definition run_n (a : arm) (c : ctx) (e : expr) : res dbl :=
     match a with
-    | AConst b CvNumber => Ok (xo_number_bool b)
+    | AConst b CvNumber => arg0 e (Ok (xo_number_bool b))
     | ACall h SgBool CvNumber => do x <- h_bool h c e; Ok (xo_number_bool x)
     | ACall h SgNum CvDirect => h_num h c e
     | ACall h SgStrRef CvNumber => do x <- h_strref h c e; Ok (xo_number_str x)
@@ -334,7 +346,7 @@ Section Run.
 
   Definition run_s (a : arm) (c : ctx) (e : expr) (buf : str) : res str :=
     match a with
-    | AConst b CvString => Ok (buf ++ xo_string_bool b)
+    | AConst b CvString => arg0 e (Ok (buf ++ xo_string_bool b))
     | ACall h SgBool CvString => do x <- h_bool h c e; Ok (buf ++ xo_string_bool x)
     | ACall h SgNum CvString => do x <- h_num h c e; Ok (buf ++ xo_string_num x)
     | ACall h SgStrRef CvAppend => do x <- h_strref h c e; Ok (buf ++ x)
@@ -345,7 +357,7 @@ Section Run.
 
   Definition run_f (a : arm) (c : ctx) (e : expr) (acc : str) : res str :=
     match a with
-    | AConst b CvString => Ok (acc ++ xo_string_bool b)
+    | AConst b CvString => arg0 e (Ok (acc ++ xo_string_bool b))
     | ACall h SgBool CvString => do x <- h_bool h c e; Ok (acc ++ xo_string_bool x)
     | ACall h SgNum CvString => do x <- h_num h c e; Ok (acc ++ xo_string_num x)
     | ACall h SgStrRef CvStringToChars | ACall h SgStrRef CvString => do x <- h_strref h c e; Ok (acc ++ x)
